@@ -32,7 +32,8 @@ THEOREMS = ["ESV.Beh.check_sound", "ESV.Beh.validate_sound", "ESV.C01.routine_va
             "ESV.C01Frontend.codegen_correct_F1", "ESV.C01Frontend.compile_correct_F1", "ESV.Beh.E_sound",
             "ESV.C01Frontend.codegen_correct_F2", "ESV.C01Frontend.compile_correct_F2",
             "ESV.C01Frontend.codegen_correct_F3", "ESV.C01Frontend.compile_correct_F3",
-            "ESV.C01Frontend.codegen_correct_F4", "ESV.C01Frontend.compile_correct_F4"]
+            "ESV.C01Frontend.codegen_correct_F4", "ESV.C01Frontend.compile_correct_F4",
+            "ESV.C01Frontend.undefined_label_counterexample"]
 
 
 def table_mismatch(ast: dict, res: dict) -> str | None:
